@@ -72,6 +72,12 @@ pub struct Mon {
     pub last_req: Option<(u8, u64, u64)>,
     pub max_call_alloc: u64,
     pub hdr: Option<*const Hdr>,
+    /// Dry-run mode: a `read_bytes/read_string(len)` with `len` above this
+    /// value (and small enough for `Vec` not to panic) would make the process
+    /// abort on allocation failure. It is not forwarded; `intercepted` is set
+    /// and the caller repeats the case in a child process.
+    pub intercept_above: Option<u64>,
+    pub intercepted: bool,
 }
 
 impl Mon {
@@ -92,6 +98,8 @@ impl Mon {
             last_req: None,
             max_call_alloc: 0,
             hdr: None,
+            intercept_above: None,
+            intercepted: false,
         }
     }
 
@@ -157,6 +165,13 @@ impl<'m, R: ReadValue<Types = OwnedValues>> Counting<'m, R> {
         }
         if let Some(h) = m.hdr {
             unsafe { &*h }.calls.store(m.calls, Ordering::Relaxed);
+        }
+        if let (Some(limit), Some(len)) = (m.intercept_above, req_len) {
+            if kind != K_SKIP && len > limit && len <= isize::MAX as u64 {
+                m.intercepted = true;
+                m.stopped = true;
+                return Err(Mon::stop_err());
+            }
         }
         allocmon::call_reset();
         let r = f(&mut self.inner);
